@@ -60,6 +60,7 @@ type VC struct {
 	callCount   map[string]int
 	callReach   map[string]Term
 	curReach    Term
+	curFrame    *Frame
 	havocs      []havocEvent
 	closures    map[Term]*closureInfo
 	fnTerms     map[Term]*ssa.Function
@@ -109,6 +110,7 @@ type VCOpts struct {
 	Safety    bool // generate zero-annotation safety obligations
 	MaxInline int
 	Canary    bool
+	Cover     bool // cover obligations for the antecedents of conditional postconditions
 	InlineBudget int // stop inlining after this many inlined instructions (0 = unlimited)
 	// when non-nil restricts which obligation kinds are emitted
 }
